@@ -183,6 +183,59 @@ impl Prop for C11 {
                 },
             ));
         }
+        // (b2) extreme default zones against far-away zone literals; seconds in front of zone
+        //      names that begin with AM / PM
+        f.push(Family::new(
+            "far-apart-zones",
+            Mode::Full,
+            "default zones at the rim of the table [GMT+14, GMT+12, GMT-11, GMT-12, LINT, NZDT, SST] (set_timezone) x zone literals [SST, NUT, HAST, LINT, NZDT, GMT-12, GMT-11, GMT+14, UTC] (those the table has; default and literal can be up to 26 hours apart) x times [10:00, 0:15, 23:30]: 'T Z' and 'T Z to UTC' denote wall time T in zone Z whatever the default zone is",
+            move |ch| {
+                let t = |n: &str| spec().zones.get(n).copied();
+                let defaults = ["GMT+14", "GMT+12", "GMT-11", "GMT-12", "LINT", "NZDT", "SST"];
+                let lits: [(&str, Option<i32>); 9] = [("SST", t("SST")), ("NUT", t("NUT")), ("HAST", t("HAST")), ("LINT", t("LINT")), ("NZDT", t("NZDT")), ("GMT-12", Some(-720)), ("GMT-11", Some(-660)), ("GMT+14", Some(840)), ("UTC", Some(0))];
+                let d = *ch.pick(&defaults);
+                if !d.starts_with("GMT") && t(d).is_none() {
+                    return None;
+                }
+                let (z, zo) = *ch.pick(&lits);
+                let zo = zo?;
+                let (tt, wall) = *ch.pick(&[("10:00", hms(10, 0, 0)), ("0:15", hms(0, 15, 0)), ("23:30", hms(23, 30, 0))]);
+                let cfg = cfg_tz(Some(d));
+                if ch.flag() {
+                    let line = LineCase::new(format!("{} {}", tt, z), Expect::Unspecified, "far-apart").with_cfg(cfg);
+                    Some(Case::Line { line, want: Want::Time { utc_mod: m(wall - zo as i64 * 60), zone: z.to_string(), off: zo } })
+                } else {
+                    let line = LineCase::new(format!("{} {} to UTC", tt, z), Expect::Unspecified, "far-apart").with_cfg(cfg);
+                    Some(Case::Line { line, want: Want::Time { utc_mod: m(wall - zo as i64 * 60), zone: "UTC".to_string(), off: 0 } })
+                }
+            },
+        ));
+        {
+            let ampm_zones: Vec<(String, i32)> = zones.iter().filter(|(n, _)| n.starts_with("AM") || n.starts_with("PM")).cloned().collect();
+            let desc = format!("times with seconds, hours 0..=12 and 13, 23 ('9:15:30', '11:59:59', '0:00:01') directly in front of the zone names that begin with AM or PM {:?}: the letters belong to the zone name, not to an am/pm marker", ampm_zones.iter().map(|(n, _)| n.as_str()).collect::<Vec<_>>());
+            f.push(Family::new(
+                "seconds-before-am-pm-zones",
+                Mode::Full,
+                &desc,
+                move |ch| {
+                    if ampm_zones.is_empty() {
+                        return None;
+                    }
+                    let (z, zo) = ch.pick(&ampm_zones).clone();
+                    let h = *ch.pick(&[0i64, 1, 9, 11, 12, 13, 23]);
+                    let (mi, sec) = *ch.pick(&[(15i64, 30i64), (59, 59), (0, 1)]);
+                    let lower = ch.flag();
+                    let zt = if lower { z.to_lowercase() } else { z.clone() };
+                    let wall = hms(h, mi, sec);
+                    let (text, want) = if ch.flag() {
+                        (format!("{}:{:02}:{:02} {}", h, mi, sec, zt), Want::Time { utc_mod: m(wall - zo as i64 * 60), zone: z.clone(), off: zo })
+                    } else {
+                        (format!("{}:{:02}:{:02} {} to UTC", h, mi, sec, zt), Want::Time { utc_mod: m(wall - zo as i64 * 60), zone: "UTC".into(), off: 0 })
+                    };
+                    Some(Case::Line { line: LineCase::new(text, Expect::Unspecified, "ampm-zone"), want })
+                },
+            ));
+        }
         // (c) conversions: all ordered pairs -----------------------------------------------
         {
             let zones = zones.clone();
